@@ -72,7 +72,9 @@ def alphabet_models(tier):
             out.append(rt.deviation(base, i, ('fcard', c)))
         out.append(rt.deviation(base, i, ('abstract', None)))
         for j, v in enumerate([None, True, False, 0, 7, -3, 2.5, -0.25, 100.0, 'x', 'hello world', 'ünï', [], [1, 'a'],
-                               [True, [2, 3]], {'k': 1}, {'k': {'j': 'q'}}, {'a b': 2.5}, {'flag': None}]):
+                               [True, [2, 3]], {'k': 1}, {'k': {'j': 'q'}}, {'a b': 2.5}, {'flag': None},
+                               {'abstract': True, 'owner': 'core'}, {'meta': {'abstract': True}}, [{'abstract': True, 'k': 1}],
+                               {'abstract': 'yes'}, {'Integer': 1, 'cardinality': 2, 'features': 'x'}]):
             out.append(rt.deviation(base, i, ('attr', ('att%d' % j, v))))
         for nm in ('a b', 'or', '1ab', 'ñu', 'a-b', 'true'):
             out.append(rt.deviation(base, i, ('name', nm)))
@@ -249,17 +251,40 @@ def check(case):
             return []
         with open(path, 'w', encoding='utf8') as fh:
             fh.write(cand[0])
+        rd = UVLReader(path)
         try:
-            fm = UVLReader(path).transform()
+            fm = rd.transform()
             engine.tick()
         except Exception:  # noqa: BLE001
-            engine.validated()
-            return []
+            # the same reader object asked again: still an error; after the file has been repaired: the model
+            try:
+                fm = rd.transform()
+                engine.tick()
+                return [Fail('invalid-document-accepted-at-second-attempt:' + case[3],
+                             {'doc': cand[0][:300], 'model': cm._safe_str(bd.observe(fm))})]
+            except Exception:  # noqa: BLE001
+                pass
+            with open(path, 'w', encoding='utf8') as fh:
+                fh.write(doc)
+            try:
+                ob = bd.observe(rd.transform())
+                engine.tick()
+            except Exception as exc:  # noqa: BLE001
+                return [Fail('reader-reuse:repaired-document-rejected:%s' % type(exc).__name__, {'doc': doc[:300], 'msg': str(exc)[:100]})]
+            out = []
+            rt.compare(FMT, model, ob, out)
+            for f in out:
+                f.clause = 'reader-reuse:after-failed-transform:' + f.clause
+                f.detail = {'doc': doc[:300], 'info': f.detail}
+            if not out:
+                engine.validated()
+            return out
         return [Fail('invalid-document-accepted:' + case[3], {'doc': cand[0][:300], 'model': cm._safe_str(bd.observe(fm))})]
     with open(path, 'w', encoding='utf8') as fh:
         fh.write(doc)
     try:
-        fm = UVLReader(path).transform()
+        rd = UVLReader(path)
+        fm = rd.transform()
         engine.tick()
         ob = bd.observe(fm)
     except Exception as exc:  # noqa: BLE001
@@ -270,6 +295,34 @@ def check(case):
         f.detail = {'doc': doc[:300], 'info': f.detail}
     if not out:
         engine.validated()
+        out = _reader_reuse(rd, path, fm, ob, model)
+    return out
+
+
+OTHER = M(F('Zq', [R(0, 1, [F('Yq')]), R(1, 1, [F('Xq', attrs=[('w', fz(2))])])]), [('k9', ('IMPLIES', 'Yq', 'Xq'))])
+
+
+def _reader_reuse(rd, path, fm, ob, model):
+    """The same reader object asked again for the same file, and after the file has been replaced."""
+    try:
+        again = bd.observe(rd.transform())
+        engine.tick()
+        if again != ob:
+            return [Fail('reader-reuse:second-transform-differs', {'first': cm._safe_str(ob), 'second': cm._safe_str(again)})]
+        if bd.observe(fm) != ob:
+            return [Fail('reader-reuse:earlier-result-changed', {'was': cm._safe_str(ob), 'now': cm._safe_str(bd.observe(fm))})]
+        if model[0][0] == OTHER[0][0]:
+            return []
+        with open(path, 'w', encoding='utf8') as fh:
+            fh.write(uvl.emit(OTHER, uvl.covering_choices()[0]))
+        third = bd.observe(rd.transform())
+        engine.tick()
+    except Exception as exc:  # noqa: BLE001
+        return [Fail('reader-reuse:raises:%s' % type(exc).__name__, str(exc)[:200])]
+    out = []
+    rt.compare(FMT, OTHER, third, out)
+    for f in out:
+        f.clause = 'reader-reuse:rewritten-file:' + f.clause
     return out
 
 
